@@ -60,10 +60,36 @@ def build_harness():
     log("[build] harness rebuilt from /repo working tree in %.1fs" % (time.time() - t))
 
 
+def harvest_literals():
+    """string and byte-string literals of the library's non-test source that could be XML names or short values: inputs
+    equal to a constant of the code under test (the name of the parser's synthetic wrapper element, a magic attribute
+    name, a keyword) are the ones a special case would be written for. Harvested from the tree the check runs on."""
+    out = []
+    for root, _, files in os.walk("/repo/src"):
+        for f in sorted(files):
+            if not f.endswith(".rs") or f == "verif.rs":
+                continue
+            text = open(os.path.join(root, f), errors="replace").read()
+            cut = text.find("#[cfg(test)]")
+            if cut >= 0:
+                text = text[:cut]
+            text = re.sub(r"^\s*//.*$", "", text, flags=re.M)
+            for m in re.finditer(r'b?"((?:[^"\\\n]|\\.){1,24})"', text):
+                lit = m.group(1)
+                if re.fullmatch(r"[A-Za-z_:$@#][\w:.$@#-]{0,23}|[0-9]{1,4}", lit) and lit not in out:
+                    out.append(lit)
+    path = os.path.join(OUT, "cases", "literals.txt")
+    ensure_dirs()
+    with open(path, "w") as fh:
+        fh.write("\n".join(out))
+    return path
+
+
 def harness(args, timeout=1800, stdin=None, env=None, cwd=None):
     """Run a harness sub-command; returns the parsed JSON summary printed on its last stdout line."""
     build_harness()
     e = dict(os.environ)
+    e.setdefault("VERIF_LITERALS", harvest_literals())
     if env:
         e.update(env)
     try:
